@@ -204,7 +204,7 @@ func (e *env) buildBatch(prop string, seed uint64, batch, n int, prof progen.Pro
 		}
 		ms := reBuildErr.FindAllStringSubmatch(string(r.Out), -1)
 		if len(ms) == 0 {
-			drv.Broken("go build of the generated packages failed in a way the driver cannot attribute:\n%s", firstLines(string(r.Out), 30))
+			drv.Broken("go build of the generated packages failed in a way the driver cannot attribute (%v):\n%s", r.Err, firstLines(string(r.Out), 30))
 		}
 		removed := 0
 		for _, m := range ms {
